@@ -49,8 +49,13 @@ func crdtScenarios(tier string) []crdtScenario {
 		c.SDL = `type User { name: String @index  c: Int @crdt(type: pncounter) }`
 		c.IndexProbe = "name"
 	}
+	lateReceiver := func(c *crdtx.Config) {
+		c.Writers = 2
+		c.Ops = []crdtx.OpKind{{Name: "create", Kind: "create"}, {Name: "inc", Field: "c", Kind: "inc"}, {Name: "set", Field: "name", Kind: "set"}}
+	}
 	if tier == "thorough" {
 		return []crdtScenario{
+			mk("two writers and a late receiver N=3 L=4 with create", 3, 4, false, lateReceiver),
 			mk("plain N=2 L=4 pre-created", 2, 4, true, nil),
 			mk("plain N=3 L=3 pre-created", 3, 3, true, nil),
 			mk("plain N=2 L=3 with create", 2, 3, false, nil),
@@ -66,6 +71,8 @@ func crdtScenarios(tier string) []crdtScenario {
 		mk("plain N=2 L=4 pre-created", 2, 4, true, nil),
 		mk("plain N=2 L=2 with create", 2, 2, false, nil),
 		mk("indexed register N=2 L=3 pre-created", 2, 3, true, indexed),
+		// a node that lags behind and receives several generations (a fork and its merge) in one merge
+		mk("two writers and a late receiver N=3 L=4 with create", 3, 4, false, lateReceiver),
 	}
 }
 
